@@ -10,6 +10,7 @@ import GeoProofs.Lemmas.C14Visit
 import GeoProofs.Lemmas.C14Flat
 import GeoProofs.Lemmas.C14PRing
 import GeoProofs.Lemmas.C14PPairs
+import GeoProofs.Lemmas.SMLXHolePair
 import Mathlib.Tactic.Ring
 
 namespace Geo.Proofs.C14
@@ -868,6 +869,29 @@ theorem holePair_iff_partial (f : XRing → Bool) (h1 h2 : List Pt) (i j : Nat)
 
 example : C14P.holePairSpec [⟨0, 0⟩, ⟨2, 0⟩, ⟨0, 2⟩, ⟨0, 0⟩] [⟨0, 0⟩, ⟨2, 0⟩, ⟨0, 2⟩, ⟨0, 0⟩] = false := by
   rw [← Bool.not_eq_true, ← holePair_iff_partial (fun _ => false) _ _ 0 1 (Or.inr (by decide +kernel))]
+  decide +kernel
+
+/-- [T] the hypothesis of `holePair_iff_partial` holds for *every* pair of coordinate lists: the `II`
+cell of the specification for two ring polygons is `F` or `2`. Atoms of dimension 0 and 1 (arrangement
+vertices, midpoints of pieces of segments) lie on one of the two rings, so they are located on the
+boundary of that ring's polygon, never `(Interior, Interior)`; only face samples can be. -/
+theorem holePair_ii_area (h1 h2 : List Pt) :
+    (relateParts (polyOf h1) (polyOf h2)).ii = .empty ∨ (relateParts (polyOf h1) (polyOf h2)).ii = .two :=
+  Geo.Proofs.SMLX.relateParts_polyOf_ii h1 h2
+
+/-- [T] hole-versus-hole clause, both directions, **no hypothesis** (the full statement of
+`holePair_iff_partial`): with `relate` = the DE-9IM specification the model's two tests on a pair of
+holes (`II = 2` → `IntersectingRingsOnAnArea`, `BB = 1` → `IntersectingRingsOnALine`) draw no error exactly
+when the specification's clause for the pair holds (`II = F` and `dim BB ≤ 0`). -/
+theorem holePair_iff (f : XRing → Bool) (h1 h2 : List Pt) (i j : Nat) :
+    holePairErrs ⟨relateSpec, f⟩ h1 i h2 j = [] ↔ C14P.holePairSpec h1 h2 = true :=
+  holePair_iff_partial f h1 h2 i j (holePair_ii_area h1 h2)
+
+/-- the iff used right to left on a pair of disjoint holes, and left to right (contrapositive) on two equal
+holes; no side condition to discharge -/
+example : holePairErrs ⟨relateSpec, fun _ => false⟩ [⟨0, 0⟩, ⟨2, 0⟩, ⟨0, 2⟩, ⟨0, 0⟩] 0
+    [⟨0, 0⟩, ⟨2, 0⟩, ⟨0, 2⟩, ⟨0, 0⟩] 1 ≠ [] := by
+  rw [Ne, holePair_iff]
   decide +kernel
 
 /-- [T] error soundness: `IntersectingRingsOnAnArea(a, b)` names two different existing,
